@@ -16,6 +16,7 @@ import Verif.Lemmas.MptChain
 import Verif.Lemmas.TrieRun
 import Verif.Lemmas.Interp
 import Verif.Lemmas.RunChain
+import Verif.Lemmas.Reexec
 namespace Verif.Props.C05
 open Verif.Mpt Verif.MptStore Verif.MptStore.Collector Verif.Props.C04
 
@@ -471,5 +472,169 @@ example (n : Nat) :
     simp [nodeKeys, refs, Ref.key, key, le64]
     intro hk
     exact absurd (congrArg List.getLast? hk) (by simp)
+/-! ### rounds executed and saved more than once at the same version (competing blocks)
+
+Round `i+1` runs at version `ver (i+1)` and is executed `n (i+1) + 1` times, every execution from the tree `T i` the
+chain has reached; every execution is saved and records its dead set under the round's version.  The chain continues
+from the LAST execution (`T (i+1)` is its tree), the earlier ones are abandoned.  `RecordDeadNodes` overwrites the record
+of the version (`recOverwrite`, = `PStore.apply (.putRec ..)`), so the final record map holds, per round, the dead set of
+the last execution only (`mem_recRounds_overwrite`).  Nothing is assumed about the abandoned executions. -/
+
+/-- **A node recorded dead stays dead — rounds executed again at the same version.**  For every record `(v, ks)` of the
+    record map after `R` rounds (overwrite policy) `v` is the version of a round `i+1 ≤ R` and no key of `ks` is the key
+    of a node of the tree of the last execution of that round, nor of any later retained tree.  Hypotheses on the
+    retained chain as in `C05_dead_forever_runs` (per-round version sets pairwise disjoint, `KeyInjOn`); none on the
+    abandoned executions (`E i k`, `k < n i`, are arbitrary event lists). -/
+theorem C05_dead_forever_reexec (H : Bytes → Bytes) (U : Ref → Prop) (hU : KeyInjOn H U) (T : Nat → Node)
+    (ver n : Nat → Nat) (E : Nat → Nat → List Event) (S : Nat → Nat → Prop) (b : Nat → Nat → Trie)
+    (hfresh : ∀ i k, (b i k).cc.changes = [] ∧ (b i k).cc.deletes = [])
+    (hrun : ∀ i, TrieRun H U (S (i + 1)) (T i) (E (i + 1) (n (i + 1))) (T (i + 1)))
+    (hw0 : WF (T 0)) (hU0 : ∀ r ∈ refs (T 0) [], U r)
+    (horg0 : ∀ r ∈ refs (T 0) [], S 0 (origin r.t))
+    (hdisj : ∀ i j, i < j → ∀ v, S i v → ¬ S j v) (R : Nat) :
+    ∀ e ∈ recRounds recOverwrite ver n (fun i k => deadKeys H ((b i k).applyEvents H (E i k))) R,
+      ∃ i, i < R ∧ e.1 = ver (i + 1) ∧ ∀ x ∈ e.2, ∀ j, x ∉ nodeKeys H (T (i + 1 + j)) := by
+  intro e he
+  obtain ⟨i, hi, rfl⟩ := mem_recRounds_overwrite ver n _ R e he
+  refine ⟨i, hi, rfl, ?_⟩
+  intro x hx j
+  exact C05_dead_forever_runs H U hU T (fun i => E i (n i)) S (fun i => b (i + 1) (n (i + 1)))
+    (fun i => hfresh _ _) hrun hw0 hU0 horg0 hdisj i j x hx
+
+/-- **Prune safety over the record map of re-executed rounds** (any prefix of the prune's write stream, any batch size,
+    any prefix of a re-run): if every round at a version below the prune version `pv` is at or before round `j`, the
+    retained tree `T j` — resolvable before — stays resolvable. -/
+theorem C05_prune_safe_reexec (H : Bytes → Bytes) (U : Ref → Prop) (hU : KeyInjOn H U) (T : Nat → Node)
+    (ver n : Nat → Nat) (E : Nat → Nat → List Event) (S : Nat → Nat → Prop) (b : Nat → Nat → Trie)
+    (hfresh : ∀ i k, (b i k).cc.changes = [] ∧ (b i k).cc.deletes = [])
+    (hrun : ∀ i, TrieRun H U (S (i + 1)) (T i) (E (i + 1) (n (i + 1))) (T (i + 1)))
+    (hw0 : WF (T 0)) (hU0 : ∀ r ∈ refs (T 0) [], U r)
+    (horg0 : ∀ r ∈ refs (T 0) [], S 0 (origin r.t))
+    (hdisj : ∀ i j, i < j → ∀ v, S i v → ¬ S j v) (R maxN : Nat) (s : PStore)
+    (hs : s.dead = recRounds recOverwrite ver n (fun i k => deadKeys H ((b i k).applyEvents H (E i k))) R)
+    (pv p q j : Nat) (hj : ∀ i, i < R → ver (i + 1) < pv → i + 1 ≤ j)
+    (hres : Resolves H (Map.get s.nodes) (T j) []) :
+    Resolves H (Map.get (s.applyAll ((pruneStream maxN s pv).take p)).nodes) (T j) [] ∧
+    Resolves H (Map.get ((s.applyAll ((pruneStream maxN s pv).take p)).applyAll
+      ((pruneStream maxN (s.applyAll ((pruneStream maxN s pv).take p)) pv).take q)).nodes) (T j) [] := by
+  have hdead : ∀ e ∈ s.dead, e.1 < pv → ∀ x ∈ e.2, x ∉ nodeKeys H (T j) := by
+    intro e he hlt x hx
+    rw [hs] at he
+    obtain ⟨i, hi, hv, hd⟩ := C05_dead_forever_reexec H U hU T ver n E S b hfresh hrun hw0 hU0 horg0 hdisj R e he
+    have hle := hj i hi (hv ▸ hlt)
+    have := hd x hx (j - (i + 1))
+    rwa [Nat.add_sub_cancel' hle] at this
+  exact ⟨C05_prune_safe H maxN s pv p (T j) hres hdead, C05_prune_rerun H maxN s pv p q (T j) hres hdead⟩
+
+/-- the case of one execution per round (`n = 0`): the record map holds the dead set of every round's only execution,
+    and each is dead forever (`C05_dead_forever_runs` read off the record map) -/
+theorem C05_dead_forever_single_exec (H : Bytes → Bytes) (U : Ref → Prop) (hU : KeyInjOn H U) (T : Nat → Node)
+    (ver : Nat → Nat) (E : Nat → List Event) (S : Nat → Nat → Prop) (b : Nat → Trie)
+    (hfresh : ∀ i, (b i).cc.changes = [] ∧ (b i).cc.deletes = [])
+    (hrun : ∀ i, TrieRun H U (S (i + 1)) (T i) (E (i + 1)) (T (i + 1)))
+    (hw0 : WF (T 0)) (hU0 : ∀ r ∈ refs (T 0) [], U r)
+    (horg0 : ∀ r ∈ refs (T 0) [], S 0 (origin r.t))
+    (hdisj : ∀ i j, i < j → ∀ v, S i v → ¬ S j v) (R : Nat) :
+    ∀ e ∈ recRounds recOverwrite ver (fun _ => 0) (fun i _ => deadKeys H ((b i).applyEvents H (E i))) R,
+      ∃ i, i < R ∧ e.1 = ver (i + 1) ∧ ∀ x ∈ e.2, ∀ j, x ∉ nodeKeys H (T (i + 1 + j)) :=
+  C05_dead_forever_reexec H U hU T ver (fun _ => 0) (fun i _ => E i) S (fun i _ => b i) (fun i _ => hfresh i) hrun hw0 hU0
+    horg0 hdisj R
+
+/-! #### the witness: one leaf; round 1 (version 2) is executed twice — first the leaf is overwritten (its key dies),
+then, from the same start tree, nothing is done (nothing dies, the leaf stays live) -/
+
+/-- on the witness the overwrite policy leaves the empty record of the last execution -/
+theorem reexec_witness_overwrite : recRounds recOverwrite (fun _ => 2) (fun _ => 1) wD 1 = [(2, [])] := by
+  simp [recRounds, recExecs, recOverwrite, wD_first, wD_second, Map.put, Map.del]
+
+/-- **Negative: the record must be overwritten also by an empty dead set.**  With "nothing is written when nothing
+    died" (`recSkipEmpty`) the record of the abandoned first execution survives and names the key of the leaf that is
+    live in the retained tree: the conclusion of `C05_dead_forever_reexec` is false. -/
+theorem reexec_skip_empty_unsafe :
+    ∃ e ∈ recRounds recSkipEmpty (fun _ => 2) (fun _ => 1) wD 1, ∃ x ∈ e.2, x ∈ nodeKeys id wT0 := by
+  refine ⟨(2, [Ref.key id ⟨[], wT0⟩]), ?_, Ref.key id ⟨[], wT0⟩, List.mem_singleton.mpr rfl, ?_⟩
+  · simp [recRounds, recExecs, recSkipEmpty, wD_first, wD_second, Map.put, Map.del]
+  · simp [nodeKeys, refs, wT0]
+
+/-- **Negative: the records of the executions of a round must not be merged** (`recMerge`): same witness. -/
+theorem reexec_merge_unsafe :
+    ∃ e ∈ recRounds recMerge (fun _ => 2) (fun _ => 1) wD 1, ∃ x ∈ e.2, x ∈ nodeKeys id wT0 := by
+  refine ⟨(2, [Ref.key id ⟨[], wT0⟩]), ?_, Ref.key id ⟨[], wT0⟩, List.mem_singleton.mpr rfl, ?_⟩
+  · simp [recRounds, recExecs, recMerge, wD_first, wD_second, Map.put, Map.del, Map.get]
+  · simp [nodeKeys, refs, wT0]
+
+/-- ... and the next prune removes the live leaf: with the stale record the store that held the retained tree no longer
+    resolves it after `PruneBelowVersion 3` -/
+theorem reexec_skip_empty_prune_kills :
+    let s : PStore := { nodes := [(Ref.key id ⟨[], wT0⟩, Ref.encode id ⟨[], wT0⟩)],
+                        dead := recRounds recSkipEmpty (fun _ => 2) (fun _ => 1) wD 1 }
+    Resolves id (Map.get s.nodes) wT0 [] ∧ ¬ Resolves id (Map.get (s.applyAll (pruneStream 1000 s 3)).nodes) wT0 [] := by
+  have hrec : recRounds recSkipEmpty (fun _ => 2) (fun _ => 1) wD 1 = [(2, [Ref.key id ⟨[], wT0⟩])] := by
+    simp [recRounds, recExecs, recSkipEmpty, wD_first, wD_second, Map.put, Map.del]
+  rw [hrec]
+  intro s
+  constructor
+  · intro r hr
+    simp [refs, wT0] at hr
+    subst hr
+    simp [s, Map.get, wT0]
+  · intro h
+    have := h ⟨[], wT0⟩ (by simp [refs, wT0])
+    simp [pruneStream, recordsBelow, insertSorted, pruneBatches, PStore.applyAll, PStore.apply, Map.delAll, Map.del,
+      Map.get, s] at this
+
+/-- non-vacuity of `C05_dead_forever_reexec` and `C05_prune_safe_reexec`: the witness history satisfies their
+    hypotheses (the last execution of round 1 is the empty run; later rounds are empty) -/
+example : ∀ e ∈ recRounds recOverwrite (fun _ => 2) (fun _ => 1) wD 1,
+    ∃ i, i < 1 ∧ e.1 = (fun _ => 2) (i + 1) ∧ ∀ x ∈ e.2, ∀ j, x ∉ nodeKeys id ((fun _ => wT0) (i + 1 + j)) := by
+  apply C05_dead_forever_reexec id (fun a => a = ⟨[], wT0⟩) _ (fun _ => wT0) (fun _ => 2) (fun _ => 1) wE
+    (fun i v => v = i + 1) (fun _ _ => Trie.open [] wT0 2) (fun _ _ => ⟨rfl, rfl⟩)
+  · intro i
+    have : wE (i + 1) 1 = [] := by simp [wE]
+    rw [this]
+    exact TrieRun.nil _
+  · exact Or.inr (by simp [wT0, WFn])
+  · intro r hr; simp [refs, wT0] at hr; subst hr; rfl
+  · intro r hr; simp [refs, wT0] at hr; subst hr; simp [origin]
+  · intro i j h v h1 h2; omega
+  · intro a c ha hc _; rw [ha, hc]
+/-- non-vacuity of `C05_prune_safe_reexec`: the witness store (the leaf, and the record map the overwrite policy leaves)
+    keeps the retained tree through any prefix of `PruneBelowVersion 3` and of its re-run -/
+example (p q : Nat) :
+    let s : PStore := { nodes := [(Ref.key id ⟨[], wT0⟩, Ref.encode id ⟨[], wT0⟩)],
+                        dead := recRounds recOverwrite (fun _ => 2) (fun _ => 1) wD 1 }
+    Resolves id (Map.get (s.applyAll ((pruneStream 1000 s 3).take p)).nodes) wT0 [] ∧
+    Resolves id (Map.get ((s.applyAll ((pruneStream 1000 s 3).take p)).applyAll
+      ((pruneStream 1000 (s.applyAll ((pruneStream 1000 s 3).take p)) 3).take q)).nodes) wT0 [] := by
+  intro s
+  apply C05_prune_safe_reexec id (fun a => a = ⟨[], wT0⟩) _ (fun _ => wT0) (fun _ => 2) (fun _ => 1) wE
+    (fun i v => v = i + 1) (fun _ _ => Trie.open [] wT0 2) (fun _ _ => ⟨rfl, rfl⟩) _ _ _ _ _ 1 1000 s rfl 3 p q 1
+  · intro i hi _; omega
+  · intro r hr
+    simp [refs, wT0] at hr
+    subst hr
+    simp [s, Map.get, wT0]
+  · intro a c ha hc _; rw [ha, hc]
+  · intro i
+    have : wE (i + 1) 1 = [] := by simp [wE]
+    rw [this]
+    exact TrieRun.nil _
+  · exact Or.inr (by simp [wT0, WFn])
+  · intro r hr; simp [refs, wT0] at hr; subst hr; rfl
+  · intro r hr; simp [refs, wT0] at hr; subst hr; simp [origin]
+  · intro i j h v h1 h2; omega
+
+/-- non-vacuity of `C05_dead_forever_single_exec`: the one-leaf chain of empty rounds -/
+example : ∀ e ∈ recRounds recOverwrite (fun i => i + 1) (fun _ => 0)
+      (fun i _ => deadKeys id (((fun _ => Trie.open [] wT0 2) i).applyEvents id ((fun _ => ([] : List Event)) i))) 3,
+    ∃ i, i < 3 ∧ e.1 = (fun i => i + 1) (i + 1) ∧ ∀ x ∈ e.2, ∀ j, x ∉ nodeKeys id ((fun _ => wT0) (i + 1 + j)) := by
+  apply C05_dead_forever_single_exec id (fun a => a = ⟨[], wT0⟩) _ (fun _ => wT0) (fun i => i + 1) (fun _ => [])
+    (fun i v => v = i + 1) (fun _ => Trie.open [] wT0 2) (fun _ => ⟨rfl, rfl⟩)
+  · intro i; exact TrieRun.nil _
+  · exact Or.inr (by simp [wT0, WFn])
+  · intro r hr; simp [refs, wT0] at hr; subst hr; rfl
+  · intro r hr; simp [refs, wT0] at hr; subst hr; simp [origin]
+  · intro i j h v h1 h2; omega
+  · intro a c ha hc _; rw [ha, hc]
 
 end Verif.Props.C05
